@@ -996,7 +996,15 @@ def inline_closures(tree, counter):
         for f in [x for x in ast.walk(tree) if isinstance(x, _FUNC_NODES)]:
             cands = [s for s in f.body if isinstance(s, ast.FunctionDef)]
             if cands:
-                n += inline_helpers(f, cands, counter)
+                # the body of a thread (a closure handed over as `target=`) keeps the closures it calls: which code runs per
+                # item on a worker is a unit the engine rules reason about, whichever way the source draws the line
+                targets = {k.value.id for c_ in ast.walk(f) if isinstance(c_, ast.Call) for k in c_.keywords
+                           if k.arg == "target" and isinstance(k.value, ast.Name)}
+                if targets:
+                    in_target = {n_.func.id for s in cands if s.name in targets for n_ in ast.walk(s)
+                                 if isinstance(n_, ast.Call) and isinstance(n_.func, ast.Name)}
+                    cands = [s for s in cands if s.name not in in_target]
+                n += inline_helpers(f, cands, counter) if cands else 0
         total += n
         if not n:
             break
@@ -1541,6 +1549,53 @@ def _delegating_cm(tree, cls, shape, withs):
     return True
 
 
+_CM_FROM_CLASS = {}   # id(module tree) -> names of context-manager classes rewritten as generator functions
+
+
+def _specialise_exit(stmts, params, present):
+    """The body of `__exit__(self, et, ev, tb)` for a block left by an exception (present) / normally: tests of the
+    arguments against None (and the truth of the exception type) are decided, decided `if`s folded. None when the
+    arguments are used in any other way."""
+    et = params[0]
+
+    def decide(t):
+        if isinstance(t, ast.Compare) and len(t.ops) == 1 and isinstance(t.left, ast.Name) and t.left.id in params \
+                and isinstance(t.comparators[0], ast.Constant) and t.comparators[0].value is None:
+            if isinstance(t.ops[0], ast.IsNot):
+                return present
+            if isinstance(t.ops[0], ast.Is):
+                return not present
+        if isinstance(t, ast.Name) and t.id == et:
+            return present
+        if isinstance(t, ast.UnaryOp) and isinstance(t.op, ast.Not):
+            d = decide(t.operand)
+            return None if d is None else not d
+        return None
+
+    def rec(lst):
+        out = []
+        for st in lst:
+            if isinstance(st, ast.If):
+                d = decide(st.test)
+                if d is not None:
+                    out += rec(st.body if d else st.orelse)
+                    continue
+                out.append(_loc(ast.If(test=st.test, body=rec(st.body) or [_loc(ast.Pass(), st)], orelse=rec(st.orelse)), st))
+            elif isinstance(st, ast.Try):
+                out.append(_loc(ast.Try(body=rec(st.body), handlers=[_loc(ast.ExceptHandler(type=h.type, name=h.name, body=rec(h.body)), h)
+                                                                     for h in st.handlers],
+                                        orelse=rec(st.orelse), finalbody=rec(st.finalbody)), st))
+            elif isinstance(st, ast.With):
+                out.append(_loc(ast.With(items=st.items, body=rec(st.body)), st))
+            else:
+                out.append(st)
+        return out
+    res = rec(copy.deepcopy(list(stmts)))
+    if any(isinstance(n, ast.Name) and n.id in params for x in res for n in ast.walk(x)):
+        return None
+    return res
+
+
 def _cm_class_to_generator(tree, cls, shape, ref, funcs):
     """class K: __init__/__enter__/__exit__ (+ helpers), used only as `with K(args):`  ->  @contextmanager def K."""
     methods, fields = shape["methods"], shape["fields"]
@@ -1564,11 +1619,11 @@ def _cm_class_to_generator(tree, cls, shape, ref, funcs):
     ex_params = [a.arg for a in (ex.args.posonlyargs + ex.args.args)][1:]
     if len(ex_params) != 3 or ex.args.kwonlyargs:
         return False
-    for n in iter_own(list(ex.body)):
-        if isinstance(n, ast.Name) and n.id in ex_params:
-            return False
-        if isinstance(n, ast.Return) and n.value is not None and not (isinstance(n.value, ast.Constant) and not n.value.value):
-            return False
+    uses_exc = any(isinstance(n, ast.Name) and n.id in ex_params for n in iter_own(list(ex.body)))
+    if not uses_exc:
+        for n in iter_own(list(ex.body)):
+            if isinstance(n, ast.Return) and n.value is not None and not (isinstance(n.value, ast.Constant) and not n.value.value):
+                return False
     for sc in nested_scopes(ex):
         if set(ex_params) & free_names(sc):
             return False
@@ -1623,13 +1678,37 @@ def _cm_class_to_generator(tree, cls, shape, ref, funcs):
     eb = replace_returns(eb, None)
     body += [_SelfRewriter(selfn, names).visit(x) for x in eb]
     sx = (ex.args.posonlyargs + ex.args.args)[0].arg
-    xb = tailify(list(_strip_doc(ex.body)))
-    if xb is None:
-        return False
-    xb = replace_returns(copy.deepcopy(xb), None)
-    xb = [_SelfRewriter(sx, names).visit(x) for x in xb]
     y = _loc(ast.Expr(value=ast.Yield(value=None)), en)
-    body.append(_loc(ast.Try(body=[y], handlers=[], orelse=[], finalbody=xb or [_loc(ast.Pass(), ex)]), ex))
+    if uses_exc:
+        # __exit__ looks at its arguments: specialise it for "left by an exception" / "left normally"
+        halves = []
+        for present in (True, False):
+            hb = _specialise_exit(list(_strip_doc(ex.body)), ex_params, present)
+            if hb is None:
+                return False
+            hb = tailify(hb)
+            if hb is None:
+                return False
+            rets = [n for n in iter_own(hb) if isinstance(n, ast.Return)]
+            vals = {bool(n.value.value) if isinstance(n.value, ast.Constant) else None for n in rets if n.value is not None}
+            if None in vals or len(vals | ({False} if any(n.value is None for n in rets) or not always_exits(hb) else set())) > 1:
+                return False
+            swallow = vals == {True} and always_exits(hb) and not any(n.value is None for n in rets)
+            hb = replace_returns(copy.deepcopy(hb), None)
+            hb = [_SelfRewriter(sx, names).visit(x) for x in hb]
+            halves.append((hb, swallow))
+        (pb, pswallow), (ab, _) = halves
+        if not pswallow:
+            pb = pb + [_loc(ast.Raise(exc=None, cause=None), ex)]
+        handler = _loc(ast.ExceptHandler(type=ast.Name(id="BaseException", ctx=ast.Load()), name=None, body=pb or [_loc(ast.Pass(), ex)]), ex)
+        body.append(_loc(ast.Try(body=[y], handlers=[handler], orelse=ab, finalbody=[]), ex))
+    else:
+        xb = tailify(list(_strip_doc(ex.body)))
+        if xb is None:
+            return False
+        xb = replace_returns(copy.deepcopy(xb), None)
+        xb = [_SelfRewriter(sx, names).visit(x) for x in xb]
+        body.append(_loc(ast.Try(body=[y], handlers=[], orelse=[], finalbody=xb or [_loc(ast.Pass(), ex)]), ex))
     gen = ast.FunctionDef(name=kname, args=gen_args, body=body,
                           decorator_list=[ast.Name(id="contextmanager", ctx=ast.Load())], returns=None, type_params=[])
     _loc(gen, cls)
@@ -1637,6 +1716,7 @@ def _cm_class_to_generator(tree, cls, shape, ref, funcs):
     i = tree.body.index(cls)
     tree.body[i] = gen
     _ensure_contextmanager_import(tree)
+    _CM_FROM_CLASS.setdefault(id(tree), set()).add(kname)
     return True
 
 
@@ -1920,6 +2000,23 @@ def drop_redundant_pass(tree):
 
 
 # ---------------------------------------------------------------------------------------------- module-level helpers
+_IMPORTED_ELSEWHERE = {}   # module name -> names other modules of the package import from it (such a def stays where it is)
+
+
+def _record_imports(trees):
+    _IMPORTED_ELSEWHERE.clear()
+    for name, tree in trees.items():
+        for st in ast.walk(tree):
+            if isinstance(st, ast.ImportFrom) and st.module:
+                if st.level == 0:
+                    target = st.module
+                else:
+                    base = name.split(".")[:-st.level] if not name.endswith("__init__") else name.split(".")[:-st.level]
+                    target = ".".join(base + [st.module])
+                for al in st.names:
+                    _IMPORTED_ELSEWHERE.setdefault(target, set()).add(al.name)
+
+
 def inline_module_helpers(tree, counter, modname, known, everything=False):
     """Inline private module-level helper functions into their (same-module) callers.  `known`: names of the
     functions of this module in the reference tree; unless `everything`, only helpers absent from it are moved."""
@@ -1927,7 +2024,8 @@ def inline_module_helpers(tree, counter, modname, known, everything=False):
     for _ in range(4):
         cands = []
         for s in tree.body:
-            if isinstance(s, ast.FunctionDef) and (everything or (s.name not in known and s.name not in _ALL_KNOWN[0])):
+            if isinstance(s, ast.FunctionDef) and (everything or (s.name not in known and s.name not in _ALL_KNOWN[0])) \
+                    and s.name not in _IMPORTED_ELSEWHERE.get(modname, ()):
                 cands.append(s)
         n = inline_helpers(tree, cands, counter, is_module=True) if cands else 0
         total += n
@@ -2131,8 +2229,9 @@ def _thread_creating_defs(tree):
     return out, defs
 
 
-def _escaping_jumps(stmts):
-    """Does this statement list contain a return / yield, or a break / continue that leaves it?"""
+def _escaping_jumps(stmts, allow_yield=False):
+    """Does this statement list contain a return / yield, or a break / continue that leaves it?  (A yield is harmless for the
+    replacement of a `with` by the manager's code: whatever is thrown in at it reaches the same handlers in both forms.)"""
     def rec(lst, in_loop):
         for st in lst:
             if isinstance(st, _FUNC_NODES + (ast.ClassDef,)):
@@ -2142,7 +2241,7 @@ def _escaping_jumps(stmts):
             if isinstance(st, (ast.Break, ast.Continue)) and not in_loop:
                 return True
             for x in _shallow_walk(st):
-                if isinstance(x, (ast.Yield, ast.YieldFrom, ast.Await)):
+                if isinstance(x, (ast.Yield, ast.YieldFrom, ast.Await)) and not (allow_yield and isinstance(x, ast.Yield)):
                     return True
             loop = in_loop or isinstance(st, (ast.For, ast.While, ast.AsyncFor))
             for f in ("body", "orelse", "finalbody"):
@@ -2208,7 +2307,7 @@ def _generator_as_template(g):
     return h
 
 
-def inline_thread_pool_withs(trees):
+def inline_thread_pool_withs(trees, select=None):
     """`with pool(args) [as x]: BODY`, where `pool` is a module-level @contextmanager generator function of the same module
     that starts threads (a worker pool), is replaced by the generator's body with BODY in the place of its single `yield`
     (arguments substituted, the generator's locals renamed).  This is what contextlib executes: the code before the yield
@@ -2221,6 +2320,11 @@ def inline_thread_pool_withs(trees):
     done = 0
     own_pools = {}
     for name, tree in trees.items():
+        if select is not None:
+            # the same replacement for other generator context managers of the module (`select` names them)
+            own_pools[name] = {d.name: d for d in tree.body if isinstance(d, ast.FunctionDef) and d.name in select(tree)
+                               and any(_is_cm_decorator(x) for x in d.decorator_list)}
+            continue
         creating, defs = _thread_creating_defs(tree)
         own_pools[name] = {n: d for n, d in defs.items() if n in creating and any(_is_cm_decorator(x) for x in d.decorator_list)}
     for name, tree in trees.items():
@@ -2282,7 +2386,7 @@ def inline_thread_pool_withs(trees):
                     it = st.items[i]
                     g = pools[it.context_expr.func.id]
                     body = st.body if i == len(st.items) - 1 else [_loc(ast.With(items=st.items[i + 1:], body=st.body), st)]
-                    if _escaping_jumps(body):
+                    if _escaping_jumps(body, allow_yield=select is not None):
                         continue
                     h = _generator_as_template(g)
                     if h is None or not inlinable_def(h):
@@ -2525,6 +2629,7 @@ def canonicalise(trees, level, known_funcs=None):
     for k_, v_ in (known_funcs or {}).items():
         if "::" not in k_:
             _ALL_KNOWN[0] |= set(v_)
+    _record_imports(trees)
     n_dm = inline_delegating_methods(trees)
     if n_dm:
         log.append({"module": "*", "delegating_methods_inlined": n_dm})
@@ -2544,6 +2649,9 @@ def canonicalise(trees, level, known_funcs=None):
         mt.changed += sw.changed + expand_dict_splats(tree) + rmw_through_local(tree)
         n_acq = acquire_to_with(tree)
         n_obj = objects_to_closures(tree, counter)
+        if n_obj and _CM_FROM_CLASS.get(id(tree)):
+            # a context-manager class that was entered at one place: its code now stands where the `with` stood
+            n_obj += inline_thread_pool_withs({name: tree}, select=lambda t_: _CM_FROM_CLASS.get(id(t_), set()))
         n_inl = inline_closures(tree, counter)
         n_st = scalarise_state_objects(tree)
         if n_st:
